@@ -110,6 +110,18 @@ CHECKS = {
         technique="TLA+ aliasing model (TLC exhaustive) + TLC-generated histories replayed on two builds + TLC trace monitor",
         design_ref="DESIGN.md section 5 C17",
     ),
+    "C20": dict(
+        level="model_checking",
+        text="CodecPool.tla models the pooled Decompressor protocol (instance taken from / returned to the pool, "
+             "initialisation and read errors) and the lz4 decode loop; TLC checks for every short history that valid "
+             "input decodes to its payload and nothing panics or exhausts memory. TLC-simulated histories run on the "
+             "shared codec values of all six codecs with every destination-buffer class, invalid inputs and concurrent "
+             "round trips; CodecMon.tla judges the trace (a call that never returns is a fatal).",
+        note="Compressed bitstreams are opaque; payload classes are five shapes with seeded sizes; the harness runs under "
+             "a 3 GB address-space limit so that unbounded allocation is observed as a death, not as a hang.",
+        technique="TLA+ protocol model (TLC exhaustive) + TLC-simulated call histories replayed on the code + TLC trace monitor",
+        design_ref="DESIGN.md section 5 C20",
+    ),
 }
 
 NOT_YET = "check not built yet in this round (planned; see DESIGN.md section 9.3)"
